@@ -51,6 +51,14 @@ CHECKS = {
   text="The real Repository.Tags, Registry.Repositories, Repository.Referrers (API and referrers-tag paths) and oci Store/ReadOnlyStore.Tags run on seeded cases against a scripted loopback registry that varies item list, last, client n, server page-size sequence including empty pages, n honoured or ignored, continuation style, link-target forms and spellings, rel values, extra link parameters, artifactType filter modes, a callback failing on its j-th call, MaxMetadataBytes with bodies sized limit-1/limit/limit+1/>>limit, and Content-Length vs chunked. The callback concatenation is compared with the registry's own list, traffic after the final page or after a callback failure is refused, bytes read from every 200 body are counted in the client RoundTripper, and an over-long document must give an error with exactly the earlier pages.",
   note="The scripted registry is trusted and self-consistent. A body over the limit only through white space after a JSON value that fits is not judged for error-vs-success (counted). Every link value sent carries rel. Cases are sampled, not exhaustive.",
   tech="runtime monitoring: scripted paginating registry over loopback HTTP, counting resp.Body wrapper, model comparison"),
+ "C09": dict(cat="exploration",
+  text="Seeded histories on a real oci.Store inside worker processes: random DAGs (<= 80 nodes) with referrer chains, referrers of untagged/absent/garbage subjects, indexes with and without subject, shared blobs, foreign layers, stray files, moved tags, tagged referrers and tagged blobs. On small stores every node is tried as Delete target (AutoGC on, off, and after a GC) and GC runs after every prefix of the set-up history, each on a freshly rebuilt store; larger stores get random 6-25 operation histories. Exists, Resolve, Tags, Predecessors and the recursive blobs/ listing before vs after are compared with the statement's GC model (removed and kept sets exact, current tags). Termination of GC is decided by a per-manifest step count at the hook oci.gcIndex.subjectStep with a CPU-time bound as backstop.",
+  note="Trusted base: the generator's own edge and subject lists; 'indexed' is read from index.json before the call; one media type per digest; reachability for GC is the least fixpoint. Unjudged: an untagged referrer of removed content that a surviving node still links to (statement contradicts itself there). A wall-clock watchdog alone is inconclusive.",
+  tech="runtime monitoring: reference-model differential oracle over randomized and small-exhaustive histories, hook-counter / CPU-time termination monitor"),
+ "C11": dict(cat="exploration",
+  text="Every case runs in a worker process jailed in a fresh sandbox (cwd and TMPDIR inside it); a default-options file.Store receives one or more pushes (archives to unpack, named blobs, manifests that restore a titled layer) and everything outside the working directory is snapshotted before and after each push (type, permission bits, SHA-256, link target). All tar entry sequences up to length 3 (quick) / 4 (thorough) over a 24-entry vocabulary are enumerated, together with all title segment sequences, vocabulary sequences followed by 13 follow-up pushes, random and corpus-mutated sequences up to 10 entries and a regression corpus; a push whose title, entry name or link target is lexically outside must return an error.",
+  note="Default options only; times and link counts of outside objects are not judged. Pre-existing links in the working directory point inside only. Linux, root, single file system. Trusted base: the harness's snapshot and diff code. Exhaustive only over the stated vocabulary and lengths.",
+  tech="runtime monitoring: sandboxed file-system snapshot-diff monitor, bounded-exhaustive plus random tar/title generation"),
 }
 
 PENDING_REASON = "check under construction in this session (not yet claimed); the technique applies"
